@@ -477,7 +477,40 @@ func rtmpPacketFacts(p *pkgInfo, w *bytes.Buffer) error {
 	if dm == nil {
 		return fmt.Errorf("func (*Protocol) DecodeMessage")
 	}
-	sws := switchesOn(dm, "m.MessageType")
+	// the switches on the message type — in DecodeMessage itself or in the helpers of the package it calls (the
+	// dispatch may be split into `packetBytes` / `discoverPacket`), recognised by the TYPE of the tag
+	var sws []*ast.SwitchStmt
+	seenFn := map[*ast.FuncDecl]bool{}
+	var collect func(fd *ast.FuncDecl, depth int)
+	collect = func(fd *ast.FuncDecl, depth int) {
+		if fd == nil || fd.Body == nil || seenFn[fd] || depth > 2 {
+			return
+		}
+		seenFn[fd] = true
+		ast.Inspect(fd.Body, func(n ast.Node) bool {
+			switch x := n.(type) {
+			case *ast.SwitchStmt:
+				if x.Tag != nil {
+					if tv, ok := p.info.Types[x.Tag]; ok && tv.Type != nil && strings.HasSuffix(tv.Type.String(), ".MessageType") {
+						sws = append(sws, x)
+					}
+				}
+			case *ast.CallExpr:
+				var obj types.Object
+				switch f := x.Fun.(type) {
+				case *ast.SelectorExpr:
+					obj = p.info.Uses[f.Sel]
+				case *ast.Ident:
+					obj = p.info.Uses[f]
+				}
+				if fn, ok := obj.(*types.Func); ok && fn.Pkg() == p.pkg && fn.Name() != "parseAMFObject" {
+					collect(p.declOfFunc(fn), depth+1)
+				}
+			}
+			return true
+		})
+	}
+	collect(dm, 0)
 	var skip []string
 	var ctorArms []swArm
 	ctorDef := ""
